@@ -314,7 +314,7 @@ def gen_harness(items, prefix):
 
 # ------------------------------------------------------------------ actual (real tool chain)
 def actual(items, w2c2, workdir, cc="gcc", cflags=("-O1",), batch=24, w2c2_opts=(), run_timeout=120,
-           extra_defs=(), keep=False, extra_srcs=()):
+           extra_defs=(), keep=False, extra_srcs=(), localize=True):
     """Translate, compile and run.  Returns (obs dict keyed (id,k), problems list).
     problems: [(kind, item ids, text)] for translate/compile/run failures (observations in
     their own right for C10/C11; machinery trouble otherwise)."""
@@ -328,6 +328,7 @@ def actual(items, w2c2, workdir, cc="gcc", cflags=("-O1",), batch=24, w2c2_opts=
         good = []
         for n, it in enumerate(its):
             it["modname"] = "m%dx%d" % (bn, n)
+            it["multi"] = "-m" in (w2c2_opts or ("-m",))
             wasm = os.path.join(d, it["modname"] + ".wasm")
             with open(wasm, "wb") as f:
                 f.write(it.get("wasm") or wasm_encode.encode(enc_module(it["module"])))
@@ -353,7 +354,7 @@ def actual(items, w2c2, workdir, cc="gcc", cflags=("-O1",), batch=24, w2c2_opts=
                 break
             ob = src[:-2] + ".o"
             rc, out, err = run([cc, *cflags, "-w", *inc, "-c", src, "-o", ob], timeout=600, cwd=d)
-            if rc == 0:
+            if rc == 0 and localize:
                 # keep only the module's public (prefixed) symbols global, so that several translated
                 # modules can live in one test program whatever their internal names are
                 rc, out, err = run(["objcopy", "-w", "-G", src[:-2].split("-")[0] + "*", ob], timeout=60, cwd=d)
@@ -492,7 +493,7 @@ def replay(verdict, items, builds, sigfn=None, w2c2_flags=("-O1",), workdir=None
             act, problems = actual([dict(i) for i in usable], w2c2, os.path.join(wd, "run-" + b["name"]),
                                    cc=b.get("cc", "gcc"), cflags=b.get("cflags", ("-O1",)),
                                    extra_defs=b.get("defs", ()), w2c2_opts=b.get("w2c2_opts", ()),
-                                   extra_srcs=b.get("extra_srcs", ()))
+                                   extra_srcs=b.get("extra_srcs", ()), batch=b.get("batch", 24), localize=b.get("localize", True))
             for kind, ids, text in problems:
                 verdict.deviation("%s:%s" % (kind, b["name"]), {"items": ids[:5], "text": text, "build": b["name"]})
             for it in usable:
